@@ -41,7 +41,11 @@ def flatten_lazy(data):
 
 
 def errors_of(schema, src):
-    return [(e.path or "", stable(e.reason)[:140]) for e in schema.iter_errors(src)]
+    """(path, reason); the path in expanded-name form: a prefix that is declared below the root is written as a
+    prefix when the path is computed inside that scope (lazy) and in Clark notation when it is computed afterwards
+    with the root's map (fully loaded): the same node either way."""
+    from checks import c04
+    return [(c04.expand(e.path or ""), stable(e.reason)[:140]) for e in schema.iter_errors(src)]
 
 
 def has_inner_keyref(xsd):
@@ -236,12 +240,25 @@ def same_data(lazy, eager):
     return split(a) == split(b)
 
 
+def strip_inner_xmlns(d, depth=0):
+    if isinstance(d, dict):
+        return {k: strip_inner_xmlns(v, depth + 1) for k, v in d.items()
+                if not (depth >= 1 and str(k).startswith("@xmlns"))}
+    if isinstance(d, list):
+        return [strip_inner_xmlns(v, depth) for v in d]
+    return d
+
+
 def known(kind, what, about="", lazy=None, eager=None):
     """F-C06-b: iter() of a lazy resource yields the descendants below the lazy depth in reversed sibling
     order (the repository's own test asserts that the order differs from the loaded tree's).
     F-C06-c: lazy decoding drops the children that an element wildcard admits at the streamed depth."""
     if kind == "iter-order":
         return "F-C06-b"
+    # F-C06-m: the streamed chunks are decoded without the xmlns declarations written on them
+    if kind == "data" and isinstance(eager, dict) and isinstance(lazy, dict) \
+            and strip_inner_xmlns(eager) != eager and same_data(lazy, strip_inner_xmlns(eager)):
+        return "F-C06-m"
     if kind == "data" and about.startswith("namespaces") and isinstance(eager, dict):
         def attrs(d):
             return {k: v for k, v in (d or {}).items() if k.startswith("@") and not k.startswith("@xmlns")}
@@ -270,7 +287,8 @@ def documents(ctx: Ctx, thorough):
         docs.append((d[0], d[1].replace("</t:s><t:s>", "</t:s>" + pad + "<t:s>", 1), "identity-padded" + d[2][8:]))
     r = ctx.tlc("Validator", "Validator.cfg", constants={"MaxItems": 2, "Double": "FALSE"}, tag="docs-validator", workers=4)
     for rec in r.json_records()[:: (2 if thorough else 9)]:
-        docs.append(((vdoc.XSD,), vdoc.render(rec["nodes"]), f"validator {rec['fault']}"))
+        docs.append(((vdoc.XSD,), vdoc.render(rec["nodes"], decl_on_item=(len(docs) % 2 == 0)),
+                     f"validator {rec['fault']}"))
     r = ctx.tlc("Namespaces", "Namespaces.cfg", tag="docs-ns", workers=4,
                 constants={"Variant": '"sound"', "MaxDepth": 3, "MaxElems": 3, "MaxDecls": 1, "Family": '"all"'})
     nsdocs = list({json.dumps(x["doc"], sort_keys=True): x["doc"] for x in r.json_records()}.values())
